@@ -65,7 +65,7 @@ def executable_lines(path):
     return lines
 
 
-def report(outdir, repo, pkgs=('qbee', 'qvm'), skip=('qvm/terminal.py', 'qvm/subterminal.py', 'qbee/main.py', 'qvm/run.py')):
+def report(outdir, repo, pkgs=('qbee', 'qvm'), skip=('qvm/terminal.py', 'qvm/subterminal.py', 'qbee/main.py', 'qvm/run.py', 'qvm/disasm.py')):
     reached = {}
     n = 0
     for fn in os.listdir(outdir):
